@@ -22,8 +22,9 @@ ARRAY_KINDS = (FIXED, DYNAMIC, LIMITED, GREEDY, EXT)
 class Const(object):
     kind = 'const'
 
-    def __init__(self, name, value, text=None):
+    def __init__(self, name, value, text=None, isar_text=None):
         self.name, self.value, self.text = name, value, text
+        self.isar_text = isar_text      # isar-only spelling of the value (shiftLeft / bitMaskOr operators)
 
     def deps(self):
         return []
@@ -158,7 +159,7 @@ class Schema(object):
         out = []
         for d in self.defs:
             if d.kind == 'const':
-                out.append({'k': 'const', 'name': d.name, 'value': d.value, 'text': d.text})
+                out.append({'k': 'const', 'name': d.name, 'value': d.value, 'text': d.text, 'isar_text': d.isar_text})
             elif d.kind == 'enum':
                 out.append({'k': 'enum', 'name': d.name, 'members': [list(m) for m in d.members]})
             elif d.kind == 'typedef':
@@ -175,7 +176,7 @@ class Schema(object):
         for d in lst:
             k = d['k']
             if k == 'const':
-                s.add(Const(d['name'], d['value'], d.get('text')))
+                s.add(Const(d['name'], d['value'], d.get('text'), d.get('isar_text')))
             elif k == 'enum':
                 s.add(Enum(d['name'], [tuple(m) for m in d['members']]))
             elif k == 'typedef':
@@ -657,7 +658,7 @@ def _xml_escape(s):
 def render_def_isar(d, patch, as_message=False):
     """XML text of one definition; appends patch lines needed to express what isar cannot."""
     if d.kind == 'const':
-        return '<constant name="%s" value="%s"/>' % (d.name, _xml_escape(d.text if d.text else d.value))
+        return '<constant name="%s" value="%s"/>' % (d.name, _xml_escape(d.isar_text or (d.text if d.text else d.value)))
     if d.kind == 'enum':
         body = ''.join('\n    <enum-member name="%s" value="%s"/>' % (n, _xml_escape(t if t else v)) for n, v, t in d.members)
         return '<enum name="%s">%s\n</enum>' % (d.name, body)
@@ -789,6 +790,16 @@ def to_isar_variants(schema, rng, split=None):
                 # in front of the (never optional) array
                 forms.add('optional-array:' + nxt_.kind)
                 opt_arrays.add(nxt_.name)
+                continue
+            if (m.kind == PLAIN and m.name not in sizers and m.type in INTS and nxt_ is not None and nxt_.kind == FIXED
+                    and nxt_.type != 'byte' and rng.random() < 0.3):
+                # a counted array in the XML (this integer as its length field) made a fixed array by a 'static' rule:
+                # the length field stays behind as an ordinary integer
+                forms.add('patch-static-on-counted-array')
+                out.append('<member name="%s" type="%s"><dimension isVariableSize="true" variableSizeFieldName="%s" '
+                           'variableSizeFieldType="%s"/></member>' % (nxt_.name, nxt_.type, m.name, m.type))
+                local_patch.append('%s static %s %s' % (xml_name, nxt_.name, nxt_.size_text if nxt_.size_text else nxt_.size))
+                skip.add(nxt_.name)
                 continue
             if m.kind == PLAIN and m.name not in sizers:
                 if r < 0.08 and out:      # isar drops a struct element without members, keep one in the XML
